@@ -1,6 +1,7 @@
 """Per-check metadata from which bin/mkmanifest writes MANIFEST.json."""
 
 HOOK_COMMITS = ["3c48510", "e2e1b97", "035de92", "8d2dfbb"]
+FIX_COMMITS = ["4036763", "5f5d3b9", "e0b60a8", "6cf1e6b"]
 
 NOTES = ("One engine: TLA+ specifications under spec/, TLC for the design, Go harness (harness/) for conformance. "
          "Exit 2 (INFRA-ERROR) is never a verdict. known_findings.json lists recorded genuine defects.")
@@ -16,5 +17,24 @@ CHECKS = {
                 "the full token table, is replayed into twin real servers (RESP and JSON) and every reply and the final dataset "
                 "projection must equal the specification's.",
         "note": "Trusted: the token table and the state projection (VerifDump). Numeric parsing of coordinates is not modelled.",
+    },
+    "C03": {
+        "level": "model_checking",
+        "technique": "TLA+ AOF spec (RestartEquivalence) model-checked; TLC-simulated histories with kill snapshots / restarts replayed on real servers",
+        "text": "TLC proves RestartEquivalence (Replay(log) = state) over all histories of a small alphabet and shows it fails when a mutating "
+                "command is missing from the write table; TLC-simulated behaviours over the full token table (all write kinds, JSET/JDEL, "
+                "script-issued writes, expiry, hooks/channels) run on a real server; at every kill instant (log file copied right after the "
+                "acknowledgement, or during a pipelined burst) and clean restart a fresh server loads the log and its dataset must equal the "
+                "specification's state.",
+        "note": "Process kill = copy of the log at that instant; deadlines compared as has-deadline; no fsync/power-loss model.",
+    },
+    "C08": {
+        "level": "model_checking",
+        "technique": "TLA+ Prewrite spec model-checked; every transition of the protocol graph forced as a schedule on the real server via gate hooks; trace validated by TLC",
+        "text": "TLC checks AckImpliesFlushed and the inductive DirtyCoversBuf on the pre-write protocol (3 connections, background flusher, "
+                "go-live pipelines) and that each historical deviation breaks it; every transition of the 2x2 protocol graph plus random "
+                "3/4-connection schedules is forced on a real server through the verif gates; PrewriteTrace validates the recorded "
+                "append/flush/write events: at each socket write the command's bytes are in the file on disk.",
+        "note": "Gates park connections only outside the server lock; background flusher runs on its own clock (can hide, never cause, a failure).",
     },
 }
